@@ -68,6 +68,7 @@ type Params struct {
 	// pre-loaded state (as a save_state dump would contain)
 	PreDelegations []PreDeleg `json:"pre_delegations,omitempty"`
 	PreEthBalances []PreBal   `json:"pre_eth_balances,omitempty"`
+	EthCap         string     `json:"eth_cap,omitempty"`    // total wrapped ether that may be locked, in wei ("" = 2 ether)
 	PreMature      []PreMat   `json:"pre_mature,omitempty"` // pending unstake maturities carried over by a state dump
 	// governance proposals carried over by a state dump (see genesis_proposals.go); only C14 draws them
 	PreProposals []PreProposal `json:"pre_proposals,omitempty"`
@@ -330,7 +331,7 @@ func BuildGenesis(p Params) *Genesis {
 					TokTotalSupply: "1000000000000000000000",
 				}},
 				ERCContractAddress: ERCLockContract,
-				TotalSupply:        "2000000000000000000",
+				TotalSupply:        ethCap(p),
 				TotalSupplyAddr:    SupplyAddr,
 				BlockConfirmation:  12,
 			},
@@ -379,4 +380,11 @@ func BuildGenesis(p Params) *Genesis {
 	doc.ForkParams = &config.ForkParams{FrankensteinBlock: p.Frankenstein}
 	doc.ConsensusParams.Block.MaxGas = p.MaxGas
 	return &Genesis{P: p, U: u, Doc: doc}
+}
+
+func ethCap(p Params) string {
+	if p.EthCap != "" {
+		return p.EthCap
+	}
+	return "2000000000000000000"
 }
